@@ -357,12 +357,15 @@ def build_call(call):
     return kwargs
 
 
-def invoke(conn, call, consume=True):
+def invoke(conn, call, consume=True, kwargs=None):
     """
     Invoke the operation; Iter... generators are consumed completely.
-    Returns the result (list for generators).
+    Returns the result (list for generators).  With kwargs, these argument
+    objects are used instead of freshly built ones (re-use of the caller's
+    objects in a later call).
     """
-    kwargs = build_call(call)
+    if kwargs is None:
+        kwargs = build_call(call)
     r = getattr(conn, call['op'])(**kwargs)
     if call['op'].startswith('Iter') and consume:
         if call['op'] == 'IterQueryInstances':
